@@ -29,7 +29,7 @@ Here is a semantic property the library is supposed to satisfy:
 
 NEVER use `git stash` (the stash is shared between all worktrees of the repository and other people are working in sibling worktrees); to switch between clean and changed code use `git -C {wt} apply <patch>` / `git -C {wt} apply -R <patch>` / `git -C {wt} checkout -- .` only.
 {AVOID}
-Since several rounds of such changes have already been made, aim for the kinds that are easy to overlook: an edit in a helper, constant, table or shared utility in ANOTHER module that the anchored code relies on (constants.py, events_lib.py, chord_symbols_lib.py, protobuf handling, …); state that leaks between calls or between objects (module-level caches, class attributes, shared mutable defaults, shallow copies); a change that only shows under a non-default parameter or an unusual but legal configuration; a reordering of floating-point operations; two cooperating edits that each look harmless alone; an exception of a different class or raised at a different moment; behaviour at the extreme ends of the legal ranges.
+Since many rounds of such changes have already been made, aim for the kinds that are easy to overlook and that need something SPECIFIC to manifest: a multi-step sequence of operations (the second or third call, an operation applied to the RESULT of another, an object reused after it was passed somewhere); a fault at a particular point (an exception raised half-way that leaves an argument or an object partly modified, an error path that now returns instead of raising or raises another class); two cooperating sites that each look fine alone (a producer and a consumer changed consistently in one place but not in a third, a default changed in a helper and compensated in only one caller); an edit in a helper, constant, table or shared utility in ANOTHER module that the anchored code relies on; state that leaks between calls or objects; a non-default parameter or an unusual but legal configuration or input syntax; a reordering of floating-point operations; the extreme ends of the legal ranges.
 
 Task: produce {n} DIFFERENT realistic source changes ("seeded defects") to the library, each of which BREAKS this property while the package still imports and the existing test suite still passes exactly as before. Each change should look like a plausible maintenance edit or refactoring slip (a changed comparison at a boundary, a dropped sort or copy, an off-by-one in a range or table, a swapped tie-break, a forgotten field, a wrong default), and should need SOMETHING SPECIFIC to manifest — an unusual input, a coincidence of times, a particular configuration, a multi-step sequence of operations, or two cooperating edits that each look fine alone — not something ordinary use would expose at once. Prefer edits of 1–6 lines.
 
